@@ -106,5 +106,22 @@ theorem pinv_step {p : Nat} {P P' : Pipe} (h : PInv P) (hs : PipeStep p P P') : 
     refine ⟨h1, h2, by simp, h4, fun x => by simp [Pipe.cancelled], h6, h7, fun _ => Or.inr (Or.inl rfl), fun _ => Or.inr (Or.inl rfl)⟩
   | pCancel a =>
     refine ⟨h1, h2, h3, h4, fun x => by simp [Pipe.cancelled], h6, h7, h8, h9⟩
+  | rTrunc u a b c =>
+    have hne : P.rpc ≠ .exit := by
+      rcases c with c | ⟨c | c, _⟩ <;> rw [c] <;> simp
+    have hne' : (if P.rpc = .sel ∧ u = 0 then RPc.fin else P.rpc) ≠ .exit := by
+      split
+      · simp
+      · exact hne
+    refine ⟨h1, ?_, h3, h4, fun x => absurd x hne', fun x => absurd (h6 x) hne, h7, h8, h9⟩
+    intro hx
+    simp only at hx ⊢
+    rcases c with c | ⟨c, hcur⟩
+    · by_cases hu : u = 0
+      · simp [c, hu] at hx
+      · omega
+    · have hpos := h2 (by rcases c with c | c <;> simp [c])
+      simp only [Pipe.cur] at hcur
+      omega
 
 end Octo.JsonPipe
